@@ -340,6 +340,14 @@ class TreeRoutingTable:
         if not peer.node_id:
             log.warning("Tried adding a peer with no node id!")
             return False
+        known = self.get_peer(peer.node_id)
+        if known and (known.address, known.udp_port) != (peer.address, peer.udp_port):
+            # the node id is claimed from another address: only believe it if the known contact stopped answering
+            try:
+                await probe(known)
+                return False
+            except (asyncio.TimeoutError, RemoteException):
+                self.remove_peer(known)
         for my_peer in self.get_peers():
             if (my_peer.address, my_peer.udp_port) == (peer.address, peer.udp_port) and my_peer.node_id != peer.node_id:
                 self.remove_peer(my_peer)
